@@ -579,6 +579,38 @@ def rule_r12(repo, run):
                   sample=dict(shape=desc, triple=triple))
 
 
+def rule_r13(repo, run, types):
+    R = run.rule("C02.R13", "types and layouts seen from C are those of C++: native typemaps name the same type on both sides, "
+                            "template parameters are looked up by name, struct members keep their declared order")
+    from sa import lints
+    n = 0
+    for name, t in sorted(types.types.items()):
+        if str(t.get("sgroup")) != "native":
+            continue
+        ct, xt = t.get("c_type"), t.get("cxx_type")
+        if not ct or not xt or name in ("bool",) or "complex" in name:
+            continue
+        n += 1
+        run.check(R, "typemap[%s]:c_type==cxx_type" % name, str(ct) == str(xt),
+                  "typemap %s has c_type %r but cxx_type %r: the extern \"C\" prototype and the C++ function disagree on the "
+                  "width/signedness of the value" % (name, ct, xt), types.loc(name), sample=dict(type=name, c_type=str(ct), cxx_type=str(xt)))
+    run.floor(R, "native typemaps", n, 15)
+    found, k = lints.degenerate_dict_key(repo, ("generate",))
+    for mn, q, node, msg in found:
+        run.fail(R, "%s.%s:degenerate-key" % (mn, q), msg + " - every templated argument is instantiated with the first parameter's type",
+                 repo.module(mn).loc(node))
+    run.rules[R]["obligations"] += k
+    run.rules[R]["discharged"] += k - len(found)
+    # struct mirror: members in declaration order, in both emitters
+    for mn, q in (("wrapc", "Wrapc.wrap_struct"), ("wrapf", "Wrapf.wrap_struct")):
+        m = repo.module(mn)
+        fn = m.func(q)
+        loops = [l for l in ast.walk(fn) if isinstance(l, ast.For) and "variables" in m.seg(l.iter)]
+        run.check(R, "%s.%s:member-order" % (mn, q), bool(loops) and all(m.seg(l.iter) == "node.variables" for l in loops),
+                  "struct members are emitted by iterating %s: the C / Fortran mirror must list them in declaration order "
+                  "(the wrappers reinterpret one struct as the other)" % [str(m.seg(l.iter)) for l in loops], m.loc(fn))
+
+
 def run(repo, run, tier):
     tables.check_model_assumptions(repo)
     table = tables.StatementTable(repo, "statements", "fc_statements")
@@ -594,4 +626,5 @@ def run(repo, run, tier):
     rule_r9(repo, run)
     rule_r11(repo, run, table)
     rule_r12(repo, run)
+    rule_r13(repo, run, types)
     rule_x(repo, run)
